@@ -239,6 +239,58 @@ def run(ctx):
         if [before, mid, after] != want:
             res.failures.append({"what": "subroutine header does not carry the app id the subroutine was instantiated for",
                                  "kf": None, "input": {"app_ids": [a0, a1, a2], "headers": [before, mid, after]}})
+    # process-wide configuration (hardware flag, simulator selection, log level): the wire format is an interop
+    # contract and must not depend on any of it — every class once per configuration, via instr.serialize(),
+    # via bytes(Subroutine) and on the read side
+    from netqasm.lang.instr.base import DebugInstruction as _Dbg
+    for (cname, enter, leave) in H.global_configs():
+        try:
+            tok = enter()
+        except Exception:
+            continue  # the knob does not accept this value
+        try:
+            for fname in H.FLAVOURS:
+                insts = []
+                for c in H.flavour_classes(fname):
+                    got = H.instances_of(c, rng, 1, 3)
+                    insts.append(got[-1])
+                app = rng.randrange(65536)
+                want = None
+                for i in insts:
+                    res.evaluations += 1
+                    res.count("config:" + cname.split("(")[0].split("=")[0])
+                    j = H.instr_to_json(i)
+                    ref = H.spec_encode(type(i).id, H.shape_of(type(i)), j["o"])
+                    rb = H.real_encode(i)
+                    if rb != ref:
+                        res.failures.append({"what": "bytes differ from the 7-byte layout of the statement under a "
+                                                     "process-wide configuration", "kf": None,
+                                             "input": {"config": cname, "i": j, "real": rb, "reference": ref}})
+                        break
+                    rd = H.real_decode(fname, ref)
+                    rdj = H.instr_to_json(rd) if rd is not None else None
+                    if rdj != j and not (fname == "vanilla" and type(i).id == 41):
+                        res.failures.append({"what": "bytes in the published layout are not read back as the "
+                                                     "instruction under a process-wide configuration", "kf": None,
+                                             "input": {"config": cname, "fl": fname, "i": j, "read": rdj}})
+                        break
+                try:
+                    sub = H.Subroutine(instructions=insts, app_id=app)
+                    rb = list(bytes(sub))
+                    want = list(sub.netqasm_version) + [app & 255, app >> 8]
+                    for i in insts:
+                        want += H.spec_encode(type(i).id, H.shape_of(type(i)), H.instr_to_json(i)["o"])
+                except Exception as exc:
+                    rb = "raises " + type(exc).__name__
+                res.evaluations += 1
+                if rb != want:
+                    res.failures.append({"what": "bytes(Subroutine) differ from the published layout under a "
+                                                 "process-wide configuration", "kf": None,
+                                         "input": {"config": cname, "fl": fname, "app": app,
+                                                   "len_real": len(rb) if isinstance(rb, list) else rb,
+                                                   "len_want": len(want) if want else None}})
+        finally:
+            leave(tok)
     # subroutine header
     for app in [0, 1, 255, 256, 0x1234, 65535] + [rng.randrange(65536) for _ in range(20)]:
         for ver in [(0, 0), (0, 10), (255, 1), (rng.randrange(256), rng.randrange(256))]:
